@@ -189,6 +189,17 @@ def plan(tier, seed):
     return sh
 
 
+def prepare_replay(shard):
+    if shard.get("kind") != "scenario" or ":" not in str(shard.get("scenario")):
+        return shard
+    k = int(str(shard["scenario"]).split(":")[0])
+    ov, aff, kind = scenario_docs(k, env.rng("C18scn", k))
+    root = scenario.make_scratch(ov)
+    shard["_env"] = {"SCHWIFTY_REPO": root}
+    shard["_scratch"] = root
+    return shard
+
+
 def run_merge(shard, mon):
     from schwifty import registry  # noqa: PLC0415
 
